@@ -16,6 +16,7 @@ func runC13(c *Ctx, r *Report) {
 	r.Rule("C13.R4", "arguments are quoted, not evaluated: during expansion only the macro body is evaluated; call arguments flow only into object.Quote values")
 	r.Rule("C13.R5", "unquote results are well-formed nodes: boxed in the form the visitors match, and a failed conversion is tested before it enters the tree (shared with C07.R5)")
 	r.Rule("C13.R6", "each expansion binds its parameters in an environment allocated for that expansion, and macro bodies are evaluated by a fully initialised state (shared with C07.R7)")
+	r.Rule("C13.R8", "attribute preservation: in every arm of ast.Modify that hands a newly allocated node to the callback, every field of the node type is set on the new node (whole-struct copy or field by field)")
 	r.Rule("C13.R7", "the definition sweep examines every statement: in the loop of DefineMacros that removes definitions from the program, an iteration that deletes the element at the loop index (append(s[:i], s[i+1:]...) or slices.Delete(s, i, i+1)) reaches the next loop test with the index unchanged; advancing it skips the statement that moved into place")
 	r.Rule("C02.R2", "(shared) the expanded program prints and re-parses like the hand-substituted one only if operator printers honour precedence")
 
@@ -350,6 +351,77 @@ func runC13(c *Ctx, r *Report) {
 	// ---- R7 ----
 	c.checkDeleteWhileIterating(r, "C13.R7", c.SSAFn(c.Fn("eval", "State.DefineMacros")))
 
+	// ---- R8 ---- every field of the node survives the rewrite
+	{
+		n8 := 0
+		eachInstr(modify, func(in ssa.Instruction) {
+			call, ok := in.(*ssa.Call)
+			if !ok || call.Common().Value != ssa.Value(modify.Params[1]) {
+				return
+			}
+			a := armOf(call.Block())
+			if a == nil {
+				return
+			}
+			arg := call.Common().Args[0]
+			if mi, ok := arg.(*ssa.MakeInterface); ok {
+				arg = mi.X
+			}
+			al, ok := arg.(*ssa.Alloc)
+			if !ok {
+				return // the input itself (leaf types): nothing is lost
+			}
+			stt := a.t.Underlying().(*types.Struct)
+			whole := false
+			set := map[int]bool{}
+			for _, ref := range *al.Referrers() {
+				switch x := ref.(type) {
+				case *ssa.Store:
+					if x.Addr == ssa.Value(al) {
+						whole = true // newNode := *node
+					}
+				case *ssa.FieldAddr:
+					for _, r2 := range *x.Referrers() {
+						if st, ok := r2.(*ssa.Store); ok && st.Addr == ssa.Value(x) {
+							set[x.Field] = true
+						}
+					}
+				}
+			}
+			for i := 0; i < stt.NumFields(); i++ {
+				n8++
+				f := stt.Field(i)
+				r.Check(whole || set[i], "C13.R8", mname, "arm *ast."+a.t.Obj().Name()+" carries field "+f.Name()+" over to the rebuilt node", c.Pos(al.Pos()),
+					"the node handed to the callback is a new "+a.t.Obj().Name()+" in which "+f.Name()+" is never set (neither by copying the whole node nor field by field): the rewritten tree silently loses that attribute (a lambda printed as a function, a variadic flag, a comment position), which only shows when the rewritten tree is printed or evaluated again")
+			}
+		})
+		if n8 < 20 {
+			r.Undecided("C13.R8: only %d fields examined in rebuilt nodes", n8)
+		}
+	}
+
+	// shared C10.R5: the session-wide macro store survives a failed input
+	if !r.Sub {
+		r.Rule("C10.R5", "(shared) State.Reset, run after every recovered panic, writes transient fields only (the macro store is session state)")
+		sub10 := NewReport("C10", r.Tier, c)
+		sub10.Sub = true
+		runC10(c, sub10)
+		n10 := 0
+		for _, o := range sub10.Obls {
+			if o.Rule != "C10.R5" {
+				continue
+			}
+			n10++
+			if o.status == FAIL {
+				r.Fail(o.Rule, o.Func, o.Desc, o.Pos, o.Reason)
+			} else {
+				r.Ok(o.Rule, o.Func, o.Desc, o.Pos)
+			}
+		}
+		if n10 < 3 {
+			r.Undecided("C13: only %d shared C10.R5 obligations", n10)
+		}
+	}
 	// shared C02.R2
 	sub := NewReport("C02", r.Tier, c)
 	sub.Sub = true
